@@ -18,7 +18,7 @@ type Spec struct {
 
 // Registry maps property ids to checks.
 var Registry = map[string]Spec{
-	"C18": {Want: build.Want{StockCLIs: true, WorkerStock: true}, Run: RunC18},
+	"C18": {Want: build.Want{StockCLIs: true, InstCLIs: true, WorkerStock: true}, Run: RunC18}, // the instrumented CLI only for the two-provider sentinel (fixed probe order)
 	"C19": {Want: build.Want{WorkerInst: true}, Run: RunC19},
 	"C02": {Want: build.Want{WorkerInst: true}, Run: RunC02},
 	"C03": {Want: build.Want{StockCLIs: true, InstCLIs: true, WorkerInst: true}, Run: RunC03},
